@@ -93,7 +93,7 @@ def gen_case(rng, max_channels=6, max_raw_bits=10):
     pool = rng.sample(range(1, 1 << nf), npool)
     nch = rng.randint(1, max_channels)
     profile = rng.choice(["small", "small", "mixed", "mixed", "big"])
-    kchoice = {"small": [1, 1, 1, 2, 2], "mixed": [1, 1, 2, 2, 2, 4, 4, 3, 5], "big": [2, 3, 4, 4, 5]}[profile]
+    kchoice = {"small": [1, 1, 1, 2, 2], "mixed": [1, 1, 2, 2, 2, 4, 4, 3, 5], "big": [2, 3, 4, 4, 5, 5, 6, 7]}[profile]
     sizes = []
     left = max_raw_bits
     for _ in range(nch):
@@ -167,7 +167,7 @@ def case_features(case):
                     feats.append("identical-sets")
                 if sets[i] < sets[j]:
                     feats.append("strict-subset")
-    if max(sizes) > 4 or max(sizes) == 3:
+    if max(sizes) > 4 or 3 in sizes:
         feats.append("k-bit")
     return sorted(set(feats)), sizes
 
@@ -373,11 +373,11 @@ CORPUS = [
     ("triple-dup", {"tables": [[3, 1, 1, 1, 1, 1, 1, 1, 1, 1, 1, 1, 1, 0, 0, 1], [1, 1, 1, 1, 1, 1, 1, 1]], "exps": [4, 3],
                     "T": T_from_cols([1, 2, 4, 7, 2, 2, 2], 3)}),
     ("all-null", {"tables": [[1, 3], [1, 1, 1, 1]], "exps": [2, 2], "T": [[0, 0, 0], [0, 0, 0]]}),
-    ("docstring", {"tables": [[9, 1], [4, 1]], "exps": [0, 0], "T": [[1, 1]]}),  # replaced below (non-dyadic 0.1/0.2 not used)
+    ("docstring-shape", {"tables": [[7, 1], [3, 1]], "exps": [3, 2], "T": [[1, 1]]}),   # two 1-bit channels, f0 = e0 ^ e1
     ("null-inside-4bit", {"tables": [[1] * 16, [1, 0, 0, 1]], "exps": [4, 1], "T": T_from_cols([0, 3, 0, 1, 1, 3], 2)}),
     ("subset-chain", {"tables": [[5, 3], [1, 3, 2, 2], [1, 1, 1, 1, 1, 1, 1, 1], [3, 1]], "exps": [3, 3, 3, 2],
                       "T": T_from_cols([1, 2, 1, 4, 1, 2, 4], 3)}),
-    ("five-bit-single", {"tables": [list(range(1, 33))], "exps": [0], "T": T_from_cols([1, 2, 3, 0, 1], 2)}),
+    ("five-bit-single", {"tables": [[497] + list(range(2, 33))], "exps": [10], "T": T_from_cols([1, 2, 3, 0, 1], 2)}),
     ("identical-three", {"tables": [[3, 1], [1, 3], [2, 2], [1, 1, 1, 1]], "exps": [2, 2, 2, 2], "T": T_from_cols([1, 1, 1, 1, 1], 1)}),
     ("over-max-bits", {"tables": [[1] * 32, [3, 1], [1, 1, 1, 1]], "exps": [5, 2, 2],
                        "T": T_from_cols([1, 2, 4, 8, 16, 1, 2, 16], 5)}),
@@ -385,20 +385,10 @@ CORPUS = [
 
 
 def _fix_corpus():
-    out = []
     for name, c in CORPUS:
-        c = dict(c)
-        if name == "docstring":
-            c = {"tables": [[7, 1], [3, 1]], "exps": [3, 2], "T": [[1, 1]]}
-        if name == "five-bit-single":
-            t = list(range(1, 33))
-            tot = sum(t)  # 528: not a power of two -> rescale to 1024 by padding the first entry
-            t[0] += 1024 - tot
-            c = {"tables": [t], "exps": [10], "T": c["T"]}
         for t, m in zip(c["tables"], c["exps"]):
             assert sum(t) == 1 << m, (name, sum(t), m)
-        out.append((name, c))
-    return out
+    return list(CORPUS)
 
 
 def case_key(case) -> str:
@@ -454,9 +444,9 @@ def run(ctx: Ctx) -> int:
 
     rng = ctx.rng
     quick = ctx.quick
-    n_coq = 420 if quick else 6000
-    n_ref = 2000 if quick else 40000
-    n_forced = 150 if quick else 1500
+    n_coq = 420 if quick else 10000
+    n_ref = 2000 if quick else 60000
+    n_forced = 150 if quick else 2500
     n_sample = 10 if quick else 60
     model_usable = not any(("Model/Channels" in b or "Base/Dist" in b) for b in ctx.broken)
 
@@ -497,13 +487,15 @@ def run(ctx: Ctx) -> int:
             mv = run_model([cases[i] for i in sub], tag="c07")
         except Exception as e:  # noqa
             ctx.broken.append(f"coq-eval: {str(e)[-600:]}")
+            ctx.log("evaluating the Coq model failed:", str(e)[-600:])
             mv = []
         n_diff = 0
         for i, m in zip(sub, mv):
             impl = impls[i]
             if isinstance(impl, Exception):
-                ctx.broken.append(f"correspondence:{names[i]}: implementation raises {impl!r}, model returns a value")
                 n_diff += 1
+                if n_diff <= 3:
+                    ctx.broken.append(f"correspondence:{names[i]}: implementation raises {impl!r}, model returns a value")
             elif (impl[0], impl[1]) != m:
                 n_diff += 1
                 if n_diff <= 3:
@@ -578,11 +570,11 @@ def run(ctx: Ctx) -> int:
     if ctx.broken and not ctx.violations:
         report_broken_without_input(ctx)
     return ctx.finish(
-        rule="case = list of <=6 dyadic probability tables (1/2/3/4/5-bit, denominators 2^1..2^6, sparse/point-mass/full support) and "
+        rule="case = list of <=6 dyadic probability tables (1..7-bit, denominators 2^1..2^6, sparse/point-mass/full support) and "
              "a GF(2) matrix with <=5 rows, <=10 columns drawn from one PRNG (VERIF_SEED); flavours: random columns from a small pool, "
              "duplicated columns inside a channel, identical column tuples across channels (also permuted), subsets of an earlier "
              "channel's columns (with repeats), zero columns, all-null; plus 10 fixed corner cases. non-trivial = the case has a zero "
-             "column, a duplicated column inside a channel, identical sets, a strict subset or a 3/5-bit table.",
+             "column, a duplicated column inside a channel, identical sets, a strict subset or a 3/5/6/7-bit table.",
         explanation="Props/C07.v: C07_simplify, C07_sampler and per-pass theorems over the hand model; correspondence (1) exact channel "
                     "lists vs Coq vm_compute, (2) brute-force pushforward of original vs simplified, (3) forced categorical samples through "
                     "_sample_channels, (4) sampling frequencies (secondary). See DESIGN.md 4.C07",
